@@ -309,7 +309,7 @@ theorem finalBlocks_types (bs : List Blk) (crcs : List Bytes) :
     applied to it), if it gets that far. -/
 def fwdOut (cfg : Cfg) (st : St) (now : Nat) (sp : SendParams) (c0 : Ctr) : Option Bundle :=
   if (fwdEdit cfg st now c0).2.2 then
-    match (sendBundle cfg (fwdEdit cfg st now c0).1 now sp (fwdEdit cfg st now c0).2.1).2.2 with
+    match (sendAsIs cfg (fwdEdit cfg st now c0).1 now sp (fwdEdit cfg st now c0).2.1).2.2 with
     | .sent b => some b
     | _ => none
   else none
@@ -328,11 +328,11 @@ theorem applyPrimary_unchanged (cfg : Cfg) (st : St) (now : Nat) (c : Ctr)
   have h4 : apLife c = c := by simp [apLife, hlt]
   simp [applyPrimary, h1, h2, h3, h4]
 
-/-- shape of a successful forward: the edited container, then `_apply_primary`, then CRCs -/
+/-- shape of a successful forward: the edited container, then CRCs (no `_apply_primary`) -/
 theorem fwdOut_some (cfg : Cfg) (st : St) (now : Nat) (sp : SendParams) (c0 : Ctr) (b : Bundle)
     (h : fwdOut cfg st now sp c0 = some b) :
     (fwdEdit cfg st now c0).2.2 = true
-    ∧ b = (applyPrimary cfg (fwdEdit cfg st now c0).1 now (fwdEdit cfg st now c0).2.1).2.wire sp.crcs := by
+    ∧ b = (fwdEdit cfg st now c0).2.1.wire sp.crcs := by
   unfold fwdOut at h
   split at h
   · rename_i hok
@@ -341,7 +341,7 @@ theorem fwdOut_some (cfg : Cfg) (st : St) (now : Nat) (sp : SendParams) (c0 : Ct
     · rename_i b' hb
       simp only [Option.some.injEq] at h
       subst h
-      simp only [sendBundle, sendRes] at hb
+      simp only [sendAsIs, sendRes] at hb
       (repeat' split at hb) <;> simp_all
     · simp at h
   · simp at h
@@ -358,7 +358,7 @@ theorem doFwd_tx (cfg : Cfg) (st : St) (now : Nat) (sp : SendParams) (c0 : Ctr) 
     obtain ⟨_, _, h⟩ := finishEff_mem _ _ hd
     simp at h
   · simp only [hok, Bool.not_true, Bool.false_eq_true, if_false, if_true] at hd ⊢
-    cases hres : (sendBundle cfg (fwdEdit cfg { st with fwdQ := q } now c0).1 now sp
+    cases hres : (sendAsIs cfg (fwdEdit cfg { st with fwdQ := q } now c0).1 now sp
         (fwdEdit cfg { st with fwdQ := q } now c0).2.1).2.2 with
     | sent b =>
       simp only [hres, finish_eff, List.mem_cons] at hd
@@ -604,6 +604,29 @@ theorem count_types (bs : List Blk) (crcs : List Bytes) (t : Nat) :
     have : isType t { b.c with btsd := b.wireBtsd, crc := (takeCrc b.c.crcType crcs).1 } = (b.c.typeCode == t) := rfl
     rw [this]
     split <;> simp [ih]
+
+/-- Every report an idle `_do_fwd` schedules is built from a container that still has the
+    received primary block and report-to: forwarding never rewrites them. -/
+theorem doFwd_report_source (cfg : Cfg) (st : St) (now : Nat) (sp : SendParams) (c0 : Ctr) (q : List Ctr)
+    (hq : st.fwdQ = c0 :: q) (e : Effect) (he : e ∈ (doFwd cfg st now sp).2) (hr : isReport e = true) :
+    ∃ c', e ∈ finishEff c' ∧ c'.primary = c0.primary ∧ c'.rptNone = c0.rptNone := by
+  obtain ⟨_, hp, _, hrn, _⟩ := fwdEdit_meta cfg { st with fwdQ := q } now c0
+  unfold doFwd at he
+  simp only [hq] at he
+  split at he
+  · simp only [fwdFail, finish_eff, List.nil_append] at he
+    exact ⟨_, he, by simpa [Ctr.record] using hp, by simpa [Ctr.record] using hrn⟩
+  · split at he
+    · simp only [finish_eff, List.mem_cons] at he
+      rcases he with rfl | he
+      · simp at hr
+      · exact ⟨_, he, by simpa [Ctr.record, sendAsIs_ctr] using hp, by simpa [Ctr.record, sendAsIs_ctr] using hrn⟩
+    · simp only [finish_eff, List.mem_cons] at he
+      rcases he with rfl | he
+      · simp at hr
+      · exact ⟨_, he, by simpa [Ctr.record, sendAsIs_ctr] using hp, by simpa [Ctr.record, sendAsIs_ctr] using hrn⟩
+    · simp only [fwdFail, finish_eff, List.nil_append] at he
+      exact ⟨_, he, by simpa [Ctr.record, sendAsIs_ctr] using hp, by simpa [Ctr.record, sendAsIs_ctr] using hrn⟩
 
 end Agent
 end DtnVerif
